@@ -30,6 +30,12 @@ CHECKS = {
         text='Theorems for every series, gate, resolution and bin: the peak-valley filter returns the strict turning points (plus ends), a strictly alternating subsequence, is idempotent (modulo ends for keepEnds=False) and keeps the global extremes; the hysteresis filter keeps the first point and last value and drops only points strictly inside the gate of the last kept point; digitisation gives the nearest multiple with ties to even, is idempotent and monotone; aggregation conserves the total and returns sorted distinct multiples of the bin within half a bin of each non-negative value. All four models tied to /repo/src by exact correspondence; the predicates also run on the implementation output.',
         note='Trusted: Lean kernel + standard axioms; hand-written models (np.rint / int() modelled by integer division on the common grid; resolution, gate and bin restricted to grid values) tied by sampled exact correspondence; the executable gate predicate embedOK is the DP counterpart of the inductive relation Kept used in the theorem (not proved equivalent).',
         ref='§5 C19'),
+    'C06': dict(
+        engine='list',
+        technique='Lean 4 proof (one whole cycle per local maximum of the de-plateaued history; unique-top scan equivalence) + exact model/implementation correspondence + small-scope exhaustive test for the unproved clauses',
+        text='Theorems for every history: each interior local maximum of the de-plateaued history yields exactly one whole Rychlik and one whole Johannesson cycle whose top is that maximum; with a unique top the Rychlik bottom is the higher of the two one-sided minima (partial: stated on the reversal sequence). The raw-history form of the bottoms and the Rychlik = rainflow table clause on histories closed at the global minimum are NOT proved: they are evaluated by Lean predicates on the implementation output over random and all small histories (a test). Models tied to /repo/src by exact correspondence.',
+        note='Trusted: Lean kernel + standard axioms; hand-written models FF.rychlik/FF.johannesson tied by sampled + small-scope-exhaustive exact correspondence. Tested-only clauses: bottoms in terms of raw samples, Rychlik table = rainflow table (C06.RainflowEqStatement is a def, not a theorem). Known finding: constant histories.',
+        ref='§5 C06'),
 }
 
 NOT_YET = {}
